@@ -37,7 +37,7 @@ ASSUMPTIONS = [
     'does not list it)',
 ]
 ANCHORS = ['Table.to_json', 'Table.from_json', 'NpEncoder.default', 'parse_biom_table', 'load_table']
-REQUIRED = ['unencodable_metadata_refused', 'reader_parse_table_string', 'reader_load_table_handle',
+REQUIRED = ['written_under_other_numpy_printoptions', 'unencodable_metadata_refused', 'reader_parse_table_string', 'reader_load_table_handle',
             'reader_cli_convert_to_json', 'writer_string_form', 'writer_direct_io_form',
             'reader_load_table', 'reader_load_table_gz',
             'reader_parse_table_handle', 'reader_parse_table_chunks',
@@ -207,7 +207,9 @@ def run_case(ctx, index):
         obs = gen.gen_ids(r, n, r.choice(gen.ID_CLASSES), 'O')
         samp = gen.gen_ids(r, m, r.choice(gen.ID_CLASSES), 'S')
     ttype = r.choice([None, 'OTU table', wild(r), 'a "quoted" \\ type',
-                      r.choice(gen.NULLISH)])
+                      r.choice(gen.NULLISH),
+                      r.choice(['', 'N', 'No', 'one', 'e', 'on', 'Non',
+                                'Table', 'table', 'OTU'])])
     tid = r.choice([None, 'plain', wild(r), 'id, with "quotes" {x}',
                     r.choice(gen.NULLISH)])
     gby = r.choice(['vm', wild(r), 'gen "by" \\ 1.0\n', 'BIOM-Format é',
@@ -241,10 +243,20 @@ def run_case(ctx, index):
     exp.obs_md = [json_norm(e) for e in exp.obs_md]
     exp.samp_md = [json_norm(e) for e in exp.samp_md]
     # ------------------------------------------------------ writer forms
-    text = t.to_json(gby, creation_date=date)
-    ctx.count('writer_string_form')
-    buf = io.StringIO()
-    t.to_json(gby, direct_io=buf, creation_date=date)
+    # how numpy *prints* numbers is a process-wide setting of the caller's;
+    # what is written is the numbers
+    popts = r.choice([None] * 8 + [{'legacy': '1.13'}, {'precision': 3},
+                                   {'suppress': True, 'precision': 4},
+                                   {'floatmode': 'fixed', 'precision': 2}])
+    import contextlib
+    with (np.printoptions(**popts) if popts else contextlib.nullcontext()):
+        text = t.to_json(gby, creation_date=date)
+        ctx.count('writer_string_form')
+        buf = io.StringIO()
+        t.to_json(gby, direct_io=buf, creation_date=date)
+    if popts:
+        desc['numpy_printoptions'] = popts
+        ctx.count('written_under_other_numpy_printoptions')
     text2 = buf.getvalue()
     ctx.count('writer_direct_io_form')
     docs = []
@@ -306,7 +318,7 @@ def run_case(ctx, index):
                    ('parse_table_lines', lambda: biom.parse_table(
                        text2.splitlines(True) if '\n' not in ''.join(
                            obs + samp) else chunks(text2)))]
-        if index % 6 == 0 and ttype in (None, 'OTU table'):
+        if index % 3 == 0:
             # through the command: JSON in, JSON out (the command's writer)
             outj = ctx.path('j%d.out.json' % index)
 
@@ -314,7 +326,7 @@ def run_case(ctx, index):
                 from click.testing import CliRunner
                 from biom.cli import cli
                 args = ['convert', '-i', path, '-o', outj, '--to-json']
-                if ttype:
+                if ttype in gen.TABLE_TYPES:
                     args += ['--table-type', ttype]
                 rr = CliRunner().invoke(cli, args)
                 if rr.exit_code != 0:
@@ -325,8 +337,13 @@ def run_case(ctx, index):
                 os.remove(outj)
                 jsonspec.loads_strict(tx)
                 t_ = biom.Table.from_json(json.loads(tx))
-                if ttype is None:
-                    t_.type = None     # the command stamps the type "Table"
+                if ttype in (None, 'None'):
+                    # a table without a type (written as "None") leaves the
+                    # command as type "Table"; any other type is kept
+                    if t_.type != 'Table':
+                        raise RuntimeError('type %r for an untyped table' %
+                                           (t_.type,))
+                    t_.type = ttype
                 t_.generated_by = gby  # and its own generated-by / date
                 t_.create_date = date
                 return t_
